@@ -1120,81 +1120,6 @@ def fixup_strided_conv(op: Operation, arch, nng):
 
     resize_factor, final_stride = calc_resize_factor(ifm_shape.width, stride_x)
 
-    def calc_filter_padding(
-        ifm_padding_type: Padding | None,
-        ifm_current_padding_x: int,
-        post_op_stride: int,
-        opt_resize_factor: int,
-        filter_width: int,
-        ifm_width: int,
-    ) -> tuple[int, int, int, int]:
-        """Calculate zero padding to be added to the filter.
-
-        Parameters
-        ----------
-        ifm_padding_type : Padding or None
-            The padding type that is applied to the IFM.
-        ifm_current_padding_x : int
-            Padding amount that is added to the IFM before optimization.
-        post_op_stride : int
-            The final stride once optimization is performed.
-        opt_resize_factor : int
-            The factor by which the stride will be reduced.
-            E.g. opt_resize_factor = 2 on a stride of 4 will produce
-            a stride of 2 after the optimization
-        filter_width : int
-            Width of the filter before optimization.
-        ifm_width : int
-            Width of the IFM before optimization
-
-        Returns
-        -------
-        padding : tuple[int, int, int, int]
-            A tuple with the ammount of padding on each side (top, left, bottom, right)
-        """
-        padding_size = 0
-        padding = (0, 0, 0, 0)
-        if ifm_padding_type and ifm_padding_type != Padding.VALID:
-            # Compute padding size for the filter that guarantees that HW padding added to IFM matches
-            # before and after the optimization is performed
-            expected_filter_size = 0
-            pre_opt_stride = post_op_stride * opt_resize_factor
-            post_opt_ifm_width = ifm_width // opt_resize_factor
-            # Compute the total expected filter size post optimization that ensures that the same HW padding
-            # is added to IFM.
-            # There are two ways of calculating required filter size depending on whether IFM width is divisible
-            # by stride width or not. These approaches match the cases used to calculate HW padding in
-            # needed_total_padding method.
-            if ifm_width % pre_opt_stride == 0:
-                expected_filter_size = ifm_current_padding_x + post_op_stride
-            else:
-                expected_filter_size = ifm_current_padding_x + (post_opt_ifm_width % post_op_stride)
-            # Compute padding size from expected filter size
-            padding_size = expected_filter_size * opt_resize_factor - filter_width
-
-            if ifm_current_padding_x == 0:
-                # If no HW padding is added to IFM, divide filter padding between left and right following
-                # the same strategy as the reference.
-                padding_left = padding_size // 2
-            else:
-                # If HW padding is added to IFM, split padding for the filter so that left padding and right padding
-                # are proportional to left and right HW padding.
-                left_hw_padding = ifm_current_padding_x // 2
-                # Compute filter padding
-                padding_left = padding_size // ifm_current_padding_x * left_hw_padding
-            padding = (0, padding_left, 0, padding_size - padding_left)
-
-        # Check if filter width is divisible by the stride width (required for optimization)
-        # If filter width is not divisible by stride width and no HW padding is added to IFM, compute
-        # filter padding required for the filter width to be divisible by the stride width and apply it as right
-        # padding.
-        if filter_width % opt_resize_factor != 0 and (padding_size == 0 or ifm_current_padding_x == 0):
-            padding_size = opt_resize_factor - (filter_width % opt_resize_factor)
-            # Add padding zeros to the right
-            padding = (0, 0, 0, padding_size)
-
-        return padding
-
     # Compute the depth of the IFM once the strided Conv2D is optimised
     post_opt_ifm_depth = ifm_shape.depth * resize_factor
 
@@ -1205,22 +1130,24 @@ def fixup_strided_conv(op: Operation, arch, nng):
         padding_type = op.attrs.get("padding", None)
         if padding_type in (None, Padding.EXPLICIT, Padding.TILE):
             return op
-        # Compute current padding as if IFM padding is SAME
-        curr_padding_x = needed_total_padding(ifm_shape.width, stride_x, k_w)
-        # Compute the padding needed on the filter for the optimisation
-        _, left_filter_padding, _, right_filter_padding = calc_filter_padding(
-            padding_type, curr_padding_x, final_stride, resize_factor, k_w, ifm_shape.width
-        )
-        total_horizontal_padding = left_filter_padding + right_filter_padding
-        # If IFM padding is enabled, check if pre-opt and post-opt padding is
-        # the same while taking into consideration the extra filter padding.
+        # Hardware padding of the operator before the optimisation
+        (pad_top, pad_left, pad_bottom, _), _ = calc_padding_and_skirt(padding_type, op.kernel, ifm_shape, None)
+        # Column x of the folded IFM holds the columns resize_factor * x ... resize_factor * x + resize_factor - 1 of the IFM,
+        # so the filter must start on a multiple of resize_factor counted from the first (padded) column the first window
+        # reads: zeros are added to the left of the filter up to that boundary
+        # (left_filter_padding + pad_left = resize_factor * new_pad_left) and to the right up to a multiple of resize_factor
+        new_pad_left = -(-pad_left // resize_factor)  # rounded up
+        left_filter_padding = new_pad_left * resize_factor - pad_left
+        right_filter_padding = -(left_filter_padding + k_w) % resize_factor
         if padding_type == Padding.SAME:
-            optimised_padding_x = needed_total_padding(
-                ifm_shape.width // resize_factor, final_stride, (k_w + 1 + total_horizontal_padding) // resize_factor
-            )
-            if curr_padding_x != optimised_padding_x:
-                # Horizontal padding would become different after optimisation; this would not work
-                return op
+            # The hardware padding of the folded operator is given explicitly: recomputing SAME padding from the folded
+            # shapes does not in general give the padding that corresponds to the original one
+            new_k_w = (left_filter_padding + k_w + right_filter_padding) // resize_factor
+            new_ifm_width = ifm_shape.width // resize_factor
+            ofm_width = op.ofm_shapes[0].width
+            new_pad_right = max((ofm_width - 1) * final_stride + new_k_w - new_pad_left - new_ifm_width, 0)
+            op.attrs["padding"] = Padding.EXPLICIT
+            op.attrs["explicit_padding"] = (pad_top, new_pad_left, pad_bottom, new_pad_right)
 
         # Resize IFM
         op.ifm_shapes[0] = Shape4D(
